@@ -74,6 +74,7 @@ type c20Item struct {
 	Decl  string `json:"decl,omitempty"`
 	J     int    `json:"j,omitempty"`
 	Text  string `json:"text"`
+	From  int    `json:"from_load,omitempty"` // 1 + id of the load whose text this item was written for, when it is not the load that runs it
 }
 
 var c20Faults = []string{"none", "stray", "noncallable", "displaced", "truncate", "damage-paren", "damage-quote", "unreadable", "read-error"}
@@ -86,9 +87,10 @@ type c20Load struct {
 	Fault   string    `json:"fault"`
 	Pos     int       `json:"pos"`
 	Text    string    `json:"text"`
-	Outer   string    `json:"outer_text,omitempty"`       // include: the including text
-	ItemsA  []c20Item `json:"first_file_items,omitempty"` // list2: the undamaged file consulted before this one in the same call
-	Repair  bool      `json:"repair,omitempty"`           // same file as the previous (failed) consult, with good content
+	Outer   string    `json:"outer_text,omitempty"`                  // include: the including text
+	ReuseOf int       `json:"include_reuses_file_of_load,omitempty"` // include: the included file is the one an earlier load consulted (1-based index)
+	ItemsA  []c20Item `json:"first_file_items,omitempty"`            // list2: the undamaged file consulted before this one in the same call
+	Repair  bool      `json:"repair,omitempty"`                      // same file as the previous (failed) consult, with good content
 	OpenErr string    `json:"open_err,omitempty"`
 }
 
@@ -273,7 +275,7 @@ func c20Apply(db c20DB, items []c20Item, load int) (c20DB, []string) {
 				s.multifile = true
 			}
 		case "note":
-			notes = append(notes, fmt.Sprintf("d(%d,%d)", load, it.J))
+			notes = append(notes, fmt.Sprintf("d(%d,%d)", it.load(load), it.J))
 		case "init-note", "init-list":
 			inits = append(inits, it)
 		}
@@ -293,7 +295,7 @@ func c20Apply(db c20DB, items []c20Item, load int) (c20DB, []string) {
 	}
 	for _, it := range inits {
 		if it.Kind == "init-note" {
-			notes = append(notes, fmt.Sprintf("i(%d,%d)", load, it.J))
+			notes = append(notes, fmt.Sprintf("i(%d,%d)", it.load(load), it.J))
 			continue
 		}
 		l := "undefined"
@@ -304,7 +306,7 @@ func c20Apply(db c20DB, items []c20Item, load int) (c20DB, []string) {
 			}
 			l = "[" + strings.Join(xs, ",") + "]"
 		}
-		notes = append(notes, fmt.Sprintf("s(%d,%d,%s)", load, it.J, l))
+		notes = append(notes, fmt.Sprintf("s(%d,%d,%s)", it.load(load), it.J, l))
 	}
 	return out, notes
 }
@@ -331,6 +333,19 @@ func c20Gen(r *kit.Run) *c20Scenario {
 		if ld.Path == "list2" {
 			ld.ItemsA = c20GenText(g, 100+li) // consult([fNa, fN]): two texts in one call, each all-or-nothing on its own
 		}
+		reuse := 0
+		if ld.Path == "include" && g.Choose(3) == 0 {
+			// include a file that an earlier load of this session consulted: it must be read again, whatever marks exist
+			var cands []int
+			for j, e := range sc.Loads {
+				if (e.Path == "consult" || e.Path == "ensure_loaded" || e.Path == "list" || e.Path == "query-consult") && e.Fault == "none" && !e.Repair {
+					cands = append(cands, j)
+				}
+			}
+			if len(cands) > 0 {
+				reuse = 1 + cands[g.Choose(len(cands))]
+			}
+		}
 		fk := 0
 		if g.Choose(2) == 0 {
 			fk = 1 + g.Choose(len(c20Faults)-1)
@@ -343,6 +358,9 @@ func c20Gen(r *kit.Run) *c20Scenario {
 			}
 		}
 		ld.Fault, ld.Pos = c20Faults[fk], pos
+		if reuse > 0 {
+			ld.ReuseOf, ld.Fault = reuse, "none"
+		}
 		if ld.Path == "exec" && (ld.Fault == "unreadable" || ld.Fault == "read-error") {
 			ld.Path = "consult"
 		}
@@ -526,13 +544,45 @@ func (c20) Exec(r *kit.Run) {
 
 	model := c20DB{}
 	loaded := map[string]bool{} // paths consulted successfully (a second consult is a no-op)
+	okLoad := map[int]bool{}    // loads that returned nil
 	staged := false
 	for li := range sc.Loads {
 		ld := &sc.Loads[li]
 		pieces, damaged, complete, mustFail, st := c20Damage(ld)
 		text := ""
 		outer := ""
-		if ld.Path == "include" {
+		if ld.Path == "include" && ld.ReuseOf > 0 && okLoad[ld.ReuseOf-1] {
+			// the included file is the one load ReuseOf consulted (its content is still in the file system); this text's own
+			// items must not touch that file's predicates (they would be discontiguous)
+			re := &sc.Loads[ld.ReuseOf-1]
+			used := map[int]bool{}
+			for _, it := range re.Items {
+				if it.Pred > 0 {
+					used[it.Pred] = true
+				}
+			}
+			var own []c20Item
+			for _, it := range ld.Items {
+				if it.Pred > 0 && used[it.Pred] {
+					continue
+				}
+				own = append(own, it)
+			}
+			c1 := g.Choose(len(own) + 1)
+			for c1 > 0 && c1 < len(own) && own[c1-1].Kind == "clause" && own[c1].Kind == "clause" && own[c1-1].Pred == own[c1].Pred {
+				c1--
+			}
+			outer = c20Join(own[:c1], g) + ":- include(" + re.File + ").\n" + c20Join(own[c1:], g)
+			ld.Outer = outer
+			// the model sees one text: own items before, the file's items, own items after. Notes of the file's directives
+			// carry the file's load id, which c20Apply takes from the items' texts, not from the load: rebuild per item
+			complete = append(append(append([]c20Item(nil), own[:c1]...), c20Relabel(re.Items, re.ID, ld.ID)...), own[c1:]...)
+			pieces, damaged, mustFail, st = nil, -1, false, true
+			r.Probe("include-of-a-file-consulted-earlier")
+			ld.File = re.File
+			text = string(fsys.Files[re.File+".pl"])
+			ld.Text = text
+		} else if ld.Path == "include" {
 			// the text is split over an including text and the included file; cuts only at run boundaries (an include
 			// directive between two clauses of one predicate would make them non-consecutive), and a piece that swallows
 			// or ends the text stays in the last part
@@ -674,6 +724,7 @@ func (c20) Exec(r *kit.Run) {
 				staged = true
 			}
 			model = want
+			okLoad[li] = true
 			if ld.Path != "exec" && ld.Path != "include" {
 				loaded[file] = true
 			}
@@ -683,4 +734,21 @@ func (c20) Exec(r *kit.Run) {
 	r.Out.Scenario = sc
 	b, _ := json.Marshal(sc)
 	r.Out.ScenarioKey = string(b)
+}
+
+// c20Relabel returns the items of an earlier text as they report when they run as part of another load: their note
+// directives print the load id they were written with (it is in their text).
+func c20Relabel(items []c20Item, from, to int) []c20Item {
+	out := append([]c20Item(nil), items...)
+	for i := range out {
+		out[i].From = from + 1
+	}
+	return out
+}
+
+func (it c20Item) load(running int) int {
+	if it.From > 0 {
+		return it.From - 1
+	}
+	return running
 }
